@@ -1110,7 +1110,7 @@ def run_case(ctx, recipe):
 
 def correspondence(ctx):
     corpus = [("corpus", c[1], []) for c in core.load_corpus(PROP) if c and c[0] == "recipe"]
-    cases = corpus + gen_cases(ctx, "all", ctx.budget(20, 100), ctx.budget(12, 40), ctx.budget(14, 30),
+    cases = corpus + gen_cases(ctx, "all", ctx.budget(20, 80), ctx.budget(12, 30), ctx.budget(14, 30),
                                ctx.budget(14, 40), exhaustive_bases=ctx.budget(0, 2), exhaustive_pairs=300)
     descs, impls = [], []
     dist = {"labels": {}, "injections": {}, "impl_errors": {}, "messages": {}}
@@ -1283,7 +1283,7 @@ def oracle(ctx, broken, hints):
         cases += gen_cases(ctx, "property", ctx.budget(20, 100), ctx.budget(15, 120), ctx.budget(20, 30),
                            ctx.budget(20, 30), exhaustive_bases=ctx.budget(1, 3))
     else:
-        cases += gen_cases(ctx, "property", ctx.budget(6, 40), ctx.budget(6, 25), ctx.budget(8, 25),
+        cases += gen_cases(ctx, "property", ctx.budget(6, 30), ctx.budget(6, 20), ctx.budget(8, 25),
                            ctx.budget(8, 30), exhaustive_bases=ctx.budget(0, 1), exhaustive_pairs=300)
     failures = []
     seen = set()
